@@ -2288,7 +2288,7 @@ func (vc *VC) GenerateLemmas(lemmas []*Clause) (err error) {
 			vc.obls = append(vc.obls, obls...)
 			continue
 		}
-		if l.Kind == "roundtrip" || l.Kind == "jsoncompat" {
+		if l.Kind == "roundtrip" || l.Kind == "jsoncompat" || l.Kind == "jsonoverwrite" {
 			t0 := time.Now()
 			ok, why, steps, trusted, err := vc.P.EvalJSONClause(l, vc.P.Spec.LemmaPkg[l])
 			if err != nil {
